@@ -17,7 +17,10 @@ use tokio::fs::File;
 use tokio::io::AsyncWriteExt;
 use tokio::select;
 use tokio::sync::mpsc::{Receiver, Sender};
+#[cfg(not(saito_verif))]
 use tokio::sync::RwLock;
+#[cfg(saito_verif)]
+use saito_core::core::util::verif::RwLock;
 use tokio::task::JoinHandle;
 use tracing_subscriber::filter::Directive;
 use tracing_subscriber::layer::SubscriberExt;
